@@ -14,7 +14,10 @@
 //	    Verify the map  verified message -> field tuple  must be injective (this covers the
 //	    plain path and the hash-signing path together);
 //	(C) nil and empty byte slices (data, user names) are the same semantic value and must
-//	    give identical signing bytes.
+//	    give identical signing bytes;
+//	(D) relayed v1/v2 messages whose embedded inner transaction differs from the one the user
+//	    signed are rejected on every check of every enumerated check sequence over a shared
+//	    real verified-transactions white list (relayed.go).
 //
 // Comparison is done on 128-bit SHA-256 prefixes of the byte strings stored per tuple; every
 // digest match is confirmed on the real byte strings before it is reported, and equal byte
@@ -237,12 +240,13 @@ func main() {
 			alpha[fieldNames[f]] = vals
 		}
 		c.Set("alphabet", alpha)
-		c.Rule = fmt.Sprintf("full product of per-field alphabets (sizes %v in field order %v) = %d transactions; (A) GetDataForSigning(real bech32/32, real TxJsonMarshalizer) called twice on each, (B) each wrapped in the real InterceptedTransaction and CheckValidity run with a recording verifier (sign-with-hash enabled, keccak, min version 1); injectivity of bytes->tuple over the whole product for A and over all tuples reaching Verify for B. Non-trivial = a (field, value, other value) class: pairs of transactions differing in exactly that field with these two values, each compared directly.", sp.radix, fieldNames, sp.n)
+		c.Rule = fmt.Sprintf("full product of per-field alphabets (sizes %v in field order %v) = %d transactions; (A) GetDataForSigning(real bech32/32, real TxJsonMarshalizer) called twice on each, (B) each wrapped in the real InterceptedTransaction and CheckValidity run with a recording verifier (sign-with-hash enabled, keccak, min version 1); injectivity of bytes->tuple over the whole product for A and over all tuples reaching Verify for B. (D) relayed v1 and v2 messages: genuine inner tx T from the full product of a 2..3-value alphabet over the fields the message determines (sizes in partD_*_alphabet_sizes), embedded inner tx T' = T (control) or T with exactly one field changed (every other value), user signature always made for T, relayer signature valid; check sequences F F F G F and G F F F G (F embeds T', G embeds T) on fresh InterceptedTransaction objects sharing one real WhiteListDataVerifier over a real LRU cache, validating deterministic signer: every check of F with T' != T must be rejected, every genuine one accepted. Non-trivial = a (field, value, other value) class: pairs of transactions differing in exactly that field with these two values, each compared directly; for D a (kind, differing field) class.", sp.radix, fieldNames, sp.n)
 		c.Bound = fmt.Sprintf("complete product, %d transactions", sp.n)
 		c.Assumptions = []string{
 			"nil and empty byte slices are the same semantic value (checked separately in part C), so the alphabet has only one of them",
 			"chain ids and user names/data in the alphabet are valid UTF-8 / arbitrary bytes resp.; invalid UTF-8 chain ids (mapped to U+FFFD by encoding/json) are outside the alphabet",
 			"sender/receiver are 32-byte addresses (the configured length); wrong-length addresses encode to the empty string and are rejected by the interceptor's length check, not enumerated here",
+			"part D: the signature scheme is a deterministic stand-in (valid iff equal to SHA-256(tag, public key, exact verified message)); only sequences of length 5 over one message F and the genuine G are enumerated, cache never evicts (capacity 64); recursive relayed and malformed relayed payloads are not enumerated",
 			"part B uses stub key generator/fee handler/white list (accept everything) and a real version checker; collision resistance of keccak-256 is what makes the hash path injective",
 		}
 		c.Exhaustive = true
@@ -471,6 +475,9 @@ func main() {
 				c.Violation("GetDataForSigning:nil-and-empty-differ", det, det)
 			}
 		}
+
+		// part D: relayed transactions (see relayed.go)
+		r.partD(c)
 
 		for _, idx := range []int{0, n / 2, n - 1} {
 			b, _ := r.signingBytes(sp.digits(idx))
